@@ -426,6 +426,13 @@ class Files:
         g[0, 2, 3] = 5.0
         self.write("g_bad.tif", g)
         self.write("g_eq.tif", np.stack([np.full((r, c), 1.0), np.full((r, c), 1.0)]))
+        # grids stored in small integer types: well-formed when min <= max as NUMBERS, whatever the sample type does
+        # to their difference (int8: 100 - (-100) wraps; uint8/uint16: a difference is never negative)
+        self.write("g_i8.tif", np.stack([np.full((r, c), -100), np.full((r, c), 100)]), dtype="int8")
+        gu = np.stack([np.full((r, c), 3), np.full((r, c), 9)])
+        gu[0, 1, 2] = 200
+        self.write("g_u8_bad.tif", gu, dtype="uint8")
+        self.write("g_u16_bad.tif", np.stack([np.full((r, c), 40000), np.full((r, c), 7)]), dtype="uint16")
         self.write("g_1.tif", np.full((r, c), 1.0))
         self.write("g_3.tif", np.stack([np.full((r, c), -1.0), np.full((r, c), 1.0), np.full((r, c), 2.0)]))
         self.write("g_wide.tif", np.stack([np.full((r, c + 1), -2.0), np.full((r, c + 1), 2.0)]))
@@ -523,7 +530,7 @@ def base_input(files, form, rng, optional=True):
     if form == "interval":
         left["disp"] = rng.choice([[-2, 2], [0, 0], [-60, -3], [1, 10]])
     elif form == "grid":
-        left["disp"] = p[rng.choice(["g_ok.tif", "g_eq.tif"])]
+        left["disp"] = p[rng.choice(["g_ok.tif", "g_eq.tif", "g_i8.tif"])]
     else:
         left["disp"] = p["g_ok.tif"]
         right["disp"] = p[rng.choice(["g_right.tif", "g_eq.tif"])]
@@ -571,7 +578,8 @@ def input_violations(files):
                            ("mask", ["m_small.tif", "m_wide.tif", "m_ok.tif", "c_ok.tif"]),
                            ("classif", ["m_small.tif", "m_wide.tif", "c_ok.tif"]),
                            ("segm", ["m_small.tif", "m_wide.tif", "s_ok.tif"]),
-                           ("disp", ["g_bad.tif", "g_1.tif", "g_3.tif", "g_wide.tif", "g_ok.tif", "g_eq.tif", "l.tif"])):
+                           ("disp", ["g_bad.tif", "g_1.tif", "g_3.tif", "g_wide.tif", "g_ok.tif", "g_eq.tif", "l.tif",
+                                     "g_i8.tif", "g_u8_bad.tif", "g_u16_bad.tif"])):
             for nm in names:
                 out.append((f"{side}.{key}={nm}", setter(side, key, p[nm])))
         out.append((f"{side}.extra", setter(side, "foo", 1)))
